@@ -75,7 +75,8 @@ define_precedence! {
     precedence 5, Right => {
         Power: power,
     }
-    precedence 5, Left => {
+    // Precedence 6: binds tighter than power (it is registered after it in the Pratt parser)
+    precedence 6, Left => {
         Coalesce: coalesce,
     }
 }
